@@ -18,6 +18,7 @@ import (
 	"crypto/elliptic"
 	crand "crypto/rand"
 	"crypto/sha256"
+	"crypto/sha512"
 	"encoding/base64"
 	"encoding/hex"
 	"encoding/json"
@@ -41,6 +42,7 @@ import (
 	"github.com/nuts-foundation/go-stoabs"
 	"github.com/nuts-foundation/go-stoabs/bbolt"
 	"github.com/nuts-foundation/nuts-node/crypto/hash"
+	"github.com/nuts-foundation/nuts-node/network/dag/tree"
 	"github.com/nuts-foundation/nuts-node/vdr/resolver"
 	"github.com/sirupsen/logrus"
 )
@@ -437,29 +439,72 @@ func v6Verdicts(input []byte, keys []*v6Key) (sigJwk bool, sigKeys []int) {
 			jwkRaw = m.v
 		}
 	}
-	if alg != `"ES256"` {
-		return
-	}
 	si := prot + "." + pl
-	for i, k := range keys {
-		if v6EcVerify(&k.priv.PublicKey, si, sig) {
-			sigKeys = append(sigKeys, i)
+	if alg == `"ES256"` {
+		for i, k := range keys {
+			if v6EcVerify(&k.priv.PublicKey, si, sig) {
+				sigKeys = append(sigKeys, i)
+			}
 		}
 	}
 	if jwkRaw != "" {
+		// RFC 7518 3.4: ES256 = P-256 + SHA-256, ES384 = P-384 + SHA-384, ES512 = P-521 + SHA-512; nothing else is a valid ECDSA JWS
 		var j struct{ Kty, Crv, X, Y string }
-		if json.Unmarshal([]byte(jwkRaw), &j) == nil && j.Kty == "EC" && j.Crv == "P-256" {
+		if json.Unmarshal([]byte(jwkRaw), &j) == nil && j.Kty == "EC" {
+			var curve elliptic.Curve
+			var digest []byte
+			switch {
+			case alg == `"ES256"` && j.Crv == "P-256":
+				h := sha256.Sum256([]byte(si))
+				curve, digest = elliptic.P256(), h[:]
+			case alg == `"ES384"` && j.Crv == "P-384":
+				h := sha512.Sum384([]byte(si))
+				curve, digest = elliptic.P384(), h[:]
+			case alg == `"ES512"` && j.Crv == "P-521":
+				h := sha512.Sum512([]byte(si))
+				curve, digest = elliptic.P521(), h[:]
+			}
 			x, e1 := base64.RawURLEncoding.DecodeString(j.X)
 			y, e2 := base64.RawURLEncoding.DecodeString(j.Y)
-			if e1 == nil && e2 == nil {
-				pub := &ecdsa.PublicKey{Curve: elliptic.P256(), X: new(big.Int).SetBytes(x), Y: new(big.Int).SetBytes(y)}
+			if curve != nil && e1 == nil && e2 == nil && len(sig)%2 == 0 && len(sig) == 2*((curve.Params().BitSize+7)/8) {
+				pub := &ecdsa.PublicKey{Curve: curve, X: new(big.Int).SetBytes(x), Y: new(big.Int).SetBytes(y)}
 				if pub.Curve.IsOnCurve(pub.X, pub.Y) {
-					sigJwk = v6EcVerify(pub, si, sig)
+					sigJwk = ecdsa.Verify(pub, digest, new(big.Int).SetBytes(sig[:len(sig)/2]), new(big.Int).SetBytes(sig[len(sig)/2:]))
 				}
 			}
 		}
 	}
 	return
+}
+
+// v6SignCurve signs like a JWS ECDSA signer would with ANY curve/hash combination: digest by the header algorithm, r||s
+// padded to the curve's size (what jwx produces when handed a key of another curve)
+func v6SignCurve(priv *ecdsa.PrivateKey, alg string, hdr, payload string) (string, []byte) {
+	si := v6b64([]byte(hdr)) + "." + v6b64([]byte(payload))
+	var digest []byte
+	switch alg {
+	case "ES384":
+		h := sha512.Sum384([]byte(si))
+		digest = h[:]
+	case "ES512":
+		h := sha512.Sum512([]byte(si))
+		digest = h[:]
+	default:
+		h := sha256.Sum256([]byte(si))
+		digest = h[:]
+	}
+	r, sv, err := ecdsa.Sign(crand.Reader, priv, digest)
+	if err != nil {
+		panic(err)
+	}
+	n := (priv.Curve.Params().BitSize + 7) / 8
+	return si, append(r.FillBytes(make([]byte, n)), sv.FillBytes(make([]byte, n))...)
+}
+
+func v6JwkOf(pub *ecdsa.PublicKey) string {
+	n := (pub.Curve.Params().BitSize + 7) / 8
+	return fmt.Sprintf(`{"crv":"%s","kty":"EC","x":"%s","y":"%s"}`, pub.Curve.Params().Name,
+		base64.RawURLEncoding.EncodeToString(pub.X.FillBytes(make([]byte, n))), base64.RawURLEncoding.EncodeToString(pub.Y.FillBytes(make([]byte, n))))
 }
 
 // ---------------------------------------------------------------- canonical results
@@ -529,6 +574,8 @@ func v6AddClass(err error) string {
 	}
 	s := err.Error()
 	switch {
+	case errors.Is(err, errV6Fault):
+		return "err:fault"
 	case errors.Is(err, stoabs.ErrCommitFailed):
 		return "err:cancelled"
 	case errors.Is(err, ErrPreviousTransactionMissing):
@@ -547,6 +594,8 @@ func v6AddClass(err error) string {
 		return "err:kid-invalid"
 	case errors.Is(err, resolver.ErrNotFound):
 		return "err:did-not-found"
+	case strings.Contains(s, "does not fit the signing key"):
+		return "err:signature"
 	case strings.Contains(s, "could not verify message"):
 		return "err:signature"
 	}
@@ -663,8 +712,26 @@ func (g *v6Gate) Read(ctx context.Context, fn func(stoabs.ReadTx) error) error {
 	return err
 }
 
+// errV6Fault is the injected store fault: the write function ran to its end, then the transaction is rolled back
+var errV6Fault = errors.New("verif: injected store fault after the write function")
+
+type v6FaultKey struct{}
+
+// Write: a context carrying v6FaultKey makes THIS write transaction fail after its function returned nil (rollback after
+// updateState), and runs `window` as the FIRST rollback handler — i.e. after the store released its write lock and before
+// state.Add's own handler reloads the trees: the window in which a concurrent Add must not get in.
 func (g *v6Gate) Write(ctx context.Context, fn func(stoabs.WriteTx) error, opts ...stoabs.TxOption) error {
-	return g.KVStore.Write(ctx, fn, opts...)
+	window, ok := ctx.Value(v6FaultKey{}).(func())
+	if !ok {
+		return g.KVStore.Write(ctx, fn, opts...)
+	}
+	failing := func(tx stoabs.WriteTx) error {
+		if err := fn(tx); err != nil {
+			return err
+		}
+		return errV6Fault
+	}
+	return g.KVStore.Write(ctx, failing, append([]stoabs.TxOption{stoabs.OnRollback(window)}, opts...)...)
 }
 
 // a subscriber whose Save cancels the caller's context while the write transaction is open (when armed)
@@ -788,11 +855,23 @@ func (n *v6Node) side() string {
 	b, _ := iblt.MarshalBinary()
 	h := sha256.Sum256(b)
 	xor, xclock := n.st.XOR(math.MaxUint32)
+	// reference fold: the IBLT of exactly the stored transactions (the tree package's own Iblt as accumulator)
+	fold := "ok"
+	if txs, err := n.st.FindBetweenLC(context.Background(), 0, MaxLamportClock); err == nil {
+		exp := tree.NewIblt(IbltNumBuckets)
+		for _, tx := range txs {
+			exp.Insert(tx.Ref())
+		}
+		eb, _ := exp.MarshalBinary()
+		if !bytes.Equal(eb, b) {
+			fold = "BAD"
+		}
+	}
 	n.mu.Lock()
 	pe := strings.Join(n.pevents, ",")
 	n.pevents = nil
 	n.mu.Unlock()
-	return fmt.Sprintf("iblt=%s@%d xor=%s@%d pe=%s", hex.EncodeToString(h[:6]), clock, xor.String()[:12], xclock, pe)
+	return fmt.Sprintf("iblt=%s@%d xor=%s@%d ibltfold=%s pe=%s", hex.EncodeToString(h[:6]), clock, xor.String()[:12], xclock, fold, pe)
 }
 
 func (n *v6Node) close() {
@@ -1059,6 +1138,38 @@ func (x *v6Exec) run(op v6Op) string {
 		return line
 	case "sched":
 		return x.sched(op)
+	case "rbwin":
+		// Add(A) is rolled back by a store fault after its write function; Add(B) is started inside the rollback-handler chain,
+		// before state.Add's reload. With the critical section intact B waits (the window times out) and runs afterwards.
+		for i := range op.Calls {
+			x.probe(&op.Calls[i])
+		}
+		inA, _ := base64.StdEncoding.DecodeString(op.Calls[0].In)
+		inB, _ := base64.StdEncoding.DecodeString(op.Calls[1].In)
+		resB := ""
+		doneB := make(chan struct{})
+		started := false
+		window := func() {
+			started = true
+			go func() {
+				defer close(doneB)
+				resB = x.node.add(context.Background(), inB, v6Payload(op.Calls[1].Pid))
+			}()
+			select {
+			case <-doneB:
+			case <-time.After(150 * time.Millisecond):
+			}
+		}
+		resA := x.node.add(context.WithValue(context.Background(), v6FaultKey{}, window), inA, v6Payload(op.Calls[0].Pid))
+		if !started { // A never reached its write transaction (rejected in phase 1): B is simply offered afterwards
+			window()
+		}
+		select {
+		case <-doneB:
+		case <-time.After(v6StepLimit):
+			v6Hang("rbwin: Add(B) did not return")
+		}
+		return "resA=" + resA + " resB=" + resB + " | " + x.node.observe()
 	}
 	return "bad-op"
 }
@@ -1358,6 +1469,7 @@ type v6Spec struct {
 	twoSigs  bool
 	embedPriv bool // embed the signer's PRIVATE key as jwk
 	flat     bool // JWS flattened JSON serialisation instead of compact
+	curve    string // "" = the P-256 key `signer`; "P-384"/"P-521"/"P-256" = a fresh embedded key of that curve, signed per header alg
 	extraSeg bool // a fourth compact segment appended
 	framing  int  // 1 = signature segment padded, 2 = signature in the standard alphabet, 3 = trailing newline
 	ver      int  // 0 = 2
@@ -1384,8 +1496,21 @@ func (g *v6Gen) build(sp v6Spec) ([]byte, v6Call) {
 	if sp.embedPriv && sp.embed >= 0 {
 		ps = v6Replace(ps, "jwk", g.keys[sp.embed].jwkD)
 	}
+	var curveKey *ecdsa.PrivateKey
+	if sp.curve != "" && sp.embed >= 0 {
+		c := map[string]elliptic.Curve{"P-256": elliptic.P256(), "P-384": elliptic.P384(), "P-521": elliptic.P521()}[sp.curve]
+		curveKey, _ = ecdsa.GenerateKey(c, crand.Reader)
+		ps = v6Replace(ps, "jwk", v6JwkOf(&curveKey.PublicKey))
+	}
 	hdr := v6HdrJSON(ps)
 	si, sig := v6Sign(g.keys[sp.signer], hdr, sp.ph)
+	if curveKey != nil {
+		a := sp.alg
+		if a == "" {
+			a = "ES256"
+		}
+		si, sig = v6SignCurve(curveKey, a, hdr, sp.ph)
+	}
 	if sp.tamper {
 		sig[10] ^= 0x40
 	}
@@ -1415,7 +1540,7 @@ func (g *v6Gen) build(sp v6Spec) ([]byte, v6Call) {
 	c := v6CallOf(input)
 	// verdicts: ECDSA verification done here with crypto/ecdsa (independent of jws.Verify), cross-checked with what was signed
 	c.SigJwk, c.SigKeys = v6Verdicts(input, g.keys)
-	if !sp.twoSigs && !sp.extraSeg && sp.framing == 0 && c.Jws["framing"] != "bad" {
+	if !sp.twoSigs && !sp.extraSeg && sp.framing == 0 && c.Jws["framing"] != "bad" && sp.curve == "" {
 		algOK := sp.alg == "" || sp.alg == "ES256"
 		valid := !sp.tamper && algOK
 		if c.SigJwk != (valid && sp.embed == sp.signer) || (len(c.SigKeys) > 0) != valid {
@@ -1559,6 +1684,32 @@ func (g *v6Gen) history(steps int, schedules bool) {
 		kind := g.rnd.Intn(100)
 		if len(dagTxs) == 0 {
 			kind = 0
+		}
+		if len(dagTxs) > 0 && g.rnd.Intn(28) == 0 {
+			// rollback window: A's write transaction is rolled back by a store fault AFTER updateState, and a sibling B is
+			// submitted between the store's unlock and the reload of the trees; then a restart; then A is offered again
+			spA, dA := validSpec()
+			spB, dB := validSpec()
+			if spA.embed < 0 {
+				regDoc(dA, spA.prevs[0], "doc", [][2]any{{spA.kid, spA.signer}})
+			}
+			if spB.embed < 0 {
+				regDoc(dB, spB.prevs[0], "doc", [][2]any{{spB.kid, spB.signer}})
+			}
+			cA := offer(spA, g.rnd.Intn(2), "rollback-window:A(rolled back)")
+			cB := offer(spB, g.rnd.Intn(2), "rollback-window:B(sibling in the window)")
+			line := g.emit(v6Op{Op: "rbwin", Calls: []v6Call{cA, cB}, Note: "rollback-window"})
+			if strings.Contains(line, " resB=ok ") {
+				admit(spB, cB, "")
+			}
+			g.emit(v6Op{Op: "reopen"})
+			if g.rnd.Intn(2) == 0 {
+				cA.Note = "after-rollback-window"
+				if strings.HasPrefix(g.emit(v6Op{Op: "add", Call: &cA}), "r=ok") {
+					admit(spA, cA, "")
+				}
+			}
+			continue
 		}
 		if len(dids) > 0 && g.rnd.Intn(10) == 0 {
 			// signed with a key that the signer's CURRENT document lists, but none of the prevs is a source transaction of that
@@ -1742,7 +1893,20 @@ func (g *v6Gen) history(steps int, schedules bool) {
 			}
 			lc, _ := strconv.Atoi(sp.lc)
 			for j := 0; j < nd; j++ {
-				switch d := g.rnd.Intn(25); d {
+				switch d := g.rnd.Intn(28); d {
+				case 25, 26, 27:
+					// ECDSA algorithm / curve combinations with a fresh embedded key: only ES256+P-256, ES384+P-384, ES512+P-521 are JWS
+					combos := [][2]string{{"ES256", "P-384"}, {"ES384", "P-256"}, {"ES256", "P-521"}, {"ES512", "P-384"}, {"ES384", "P-384"}, {"ES512", "P-521"}}
+					cb := combos[g.rnd.Intn(len(combos))]
+					if sp.embed < 0 {
+						sp.embed = sp.signer
+					}
+					sp.alg, sp.curve = cb[0], cb[1]
+					if (cb[0] == "ES384" && cb[1] == "P-384") || (cb[0] == "ES512" && cb[1] == "P-521") {
+						note += ":(valid)" + cb[0] + "+" + cb[1]
+					} else {
+						note += ":alg-curve-mismatch:" + cb[0] + "+" + cb[1]
+					}
 				case 24:
 					sp.framing = 1 + g.rnd.Intn(3)
 					note += ":lenient-base64-" + strconv.Itoa(sp.framing)
